@@ -1,7 +1,13 @@
 import VirVerif.Drv.Hier
 import VirVerif.Model.Cond
+import VirVerif.Model.Sampling
 namespace VirVerif.Drv
 open VirVerif
+
+/-- (name, default | "-") token pairs of a callable's signature after `x` -/
+def sigPairs : List String → List (String × Option Float)
+  | n :: d :: tl => (n, if d == "-" then none else some (fOfTok d)) :: sigPairs tl
+  | _ => []
 
 /-- `cond <model> <dim> <cdf|icdf|pdf> <k> (x g)…` → conditional distribution of dimension `dim`
 evaluated at `k` pairs (x_j, g_j) one at a time -/
@@ -31,6 +37,23 @@ def handleC08 : Handler := fun st toks =>
         | .positional k => s!"{nm}=pos{k}"
         | .boundDep => s!"{nm}=dep"))
     | .error e => some ("ERR " ++ e)
+  | "defaults" :: rest =>
+    -- defaults (name (bits | -))*  → OK (name bits)*   signature defaults, implicit 1
+    let r := defaultParams (sigPairs rest)
+    some ("OK" ++ String.join (r.map fun (n, v) => s!" {n} {tokOfF v}"))
+  | ["callmode", nFree, nArgs, nKw] =>
+    match callMode nFree.toNat! nArgs.toNat! nKw.toNat! with
+    | .stored => some "OK stored"
+    | .explicit => some "OK explicit"
+    | .error => some "OK error"
+  | "condshape" :: n :: given :: rest =>
+    -- condshape <n> (- | <k>) (s | v<len>)*  → size handed to the template's sampler by
+    -- ConditionalDistribution.draw_sample(n, given): flat n | matrix n len
+    let raw := rest.map fun t => if t == "s" then ParShape.scalar else ParShape.vector (t.drop 1).toNat!
+    let g := if given == "-" then none else some given.toNat!
+    match rvsSize n.toNat! (condParShapes g raw) with
+    | .flat k => some s!"OK flat {k}"
+    | .matrix k l => some s!"OK matrix {k} {l}"
   | _ => none
 
 end VirVerif.Drv
